@@ -52,10 +52,10 @@ class C04(RunProp):
 
     def cases(self, rng: random.Random, tier: str) -> Iterable[dict]:
         while True:
-            c = gen.gen_loop(rng, max_n=6 if tier == "quick" else rng.choice([6, 15, 40]))
+            c = gen.gen_loop(rng, max_n=6 if tier == "quick" else rng.choice([6, 15, 40]), allow_nested_body=True)
             seq = sequential(c["loop"])
             cfgs = [{}]
-            if seq["steps"] > 0 and not c["loop"].get("separateEmitter"):
+            if seq["steps"] > 0 and not c["loop"].get("separateEmitter") and not c["loop"].get("twoAcc"):
                 cfgs.append({"maxIter": max(1, seq["steps"] + rng.choice([-2, -1, 0, 0, 1, 5])), "errMode": rng.choice(["raise", "continue"])})
             for cfg in cfgs:
                 for runner in ("sync", "async"):
@@ -69,6 +69,7 @@ class C04(RunProp):
         mi = case["cfg"].get("maxIter", 1000)
         counts: dict[str, int] = {}
         for f, _ in obs["calls"]:
+            f = "0:" + f.split(":", 1)[1]        # by node name (a nested body node lives in another graph of the program)
             counts[f] = counts.get(f, 0) + 1
         vals = dict((k, v) for k, v in obs["values"])
         if mi >= seq["steps"]:
@@ -93,7 +94,7 @@ class C04(RunProp):
                     return f"exit node ran {counts.get('0:done', 0)} times with result {vals.get('result')!r}"
             if lp["family"] == "accum":
                 # one accumulation per new value of x (the initial one included)
-                exp = {"l": list(range(lp["x0"], seq["x"] + 1))}
+                exp = {"l": [v for v in range(lp["x0"], seq["x"] + 1) for _ in range(2 if lp.get("twoAcc") else 1)]}
                 if vals.get("messages") != exp:
                     return f"accumulator holds {vals.get('messages')!r}, expected one entry per produced x: {exp!r}"
         else:
